@@ -53,6 +53,17 @@ def cu_containing(ctx, x):
     yield from one(dw.get_CU_containing, x)
 
 
+@op('cu_containing_seq')
+def cu_containing_seq(ctx, xs):
+    """Several containing-offset lookups in one history (element-wise solo references)."""
+    ok, dw = _dw(ctx)
+    if not ok:
+        yield dw
+        return
+    for x in xs:
+        yield from one(dw.get_CU_containing, x)
+
+
 @op('die_top')
 def die_top(ctx, o):
     ok, dw, cu = yield from _cu(ctx, o)
